@@ -715,6 +715,48 @@ def gen_sizes(rng, kmax, it):
     raise core.HarnessError("size generator")
 
 
+def check_ad_mode(ctx):
+    """the reverse-mode handlers differentiate in reverse mode, the forward-mode handler in forward mode: a map that only
+    defines a pullback (jax.custom_vjp: implicit layers, hand-written adjoints) works with every method of
+    `jacobian_monte_carlo_rev`, a map that only defines a pushforward (jax.custom_jvp without transpose is still
+    reverse-differentiable, so the probe is one-sided) - seeded change C17-s9"""
+    import jax
+    import jax.numpy as jnp
+    from probdiffeq import probdiffeq as pdq
+
+    W = jnp.asarray([[0.5, -1.0, 0.25], [1.5, 0.75, -0.5]])
+
+    @jax.custom_vjp
+    def g(x):  # x: (3, d) -> (2, d)
+        return jnp.tanh(W @ x)
+
+    def g_fwd(x):
+        y = jnp.tanh(W @ x)
+        return y, (y,)
+
+    def g_bwd(res, ct):
+        (y,) = res
+        return (W.T @ (ct * (1 - y**2)),)
+
+    g.defvjp(g_fwd, g_bwd)
+    x = jnp.asarray([[0.25, -0.5], [1.0, 0.75], [-0.25, 0.5]])
+    Jref = np.asarray(jax.jacrev(lambda z: jnp.tanh(W @ z))(x))
+    h = handler_of("rev", num_probes=1, seed=3)
+    key = h.init_jacobian_handler()
+    case = {"map": "tanh(W x) defined with jax.custom_vjp (reverse mode only)", "handler": "jacobian_monte_carlo_rev", "x": np.asarray(x).tolist()}
+    ctx.case(case, nontrivial=True)
+    ctx.count("ad-mode: custom_vjp through the reverse-mode handler")
+    for meth in ("materialize_dense", "calculate_trace_along_d", "calculate_diagonal_along_d"):
+        try:
+            out = getattr(h, meth)(g, x, key)
+        except Exception as e:  # noqa: BLE001
+            ctx.violation(f"rev:{meth}:ad-mode", f"jacobian_monte_carlo_rev.{meth} raised {type(e).__name__} on a map that defines a pullback only: {str(e)[:160]}", dict(case, method=meth))
+            continue
+        if meth == "materialize_dense":
+            dev = float(np.max(np.abs(np.asarray(out[1]) - Jref)))
+            ctx.dev("ad-mode.materialize_dense", dev, 1e-12, case=dict(case, method=meth), sig="rev:materialize_dense:custom_vjp:value")
+
+
 def run(ctx):
     import jax
 
@@ -744,6 +786,7 @@ def run(ctx):
     timings = ctx.extra.setdefault("section_seconds", {})
     t0 = time.time()
     corpus(ctx, kmax)
+    guarded(ctx, "ad-mode", {"part": "custom_vjp"}, check_ad_mode)
     timings["corpus"] = round(time.time() - t0, 1)
 
     # --- _verify_fun_and_x
